@@ -474,6 +474,11 @@ where
         let random_v = if let Some(hiding_witnesses) = hiding_witnesses {
             let witness_comm_time =
                 start_timer!(|| "Computing commitment to hiding witness polynomials");
+            // The blinding polynomial ranges over all the variables of the key, also over
+            // those the opened polynomials do not use: these need a witness as well.
+            if w.len() < hiding_witnesses.len() {
+                w.resize(hiding_witnesses.len(), E::G1::zero());
+            }
             ark_std::cfg_iter_mut!(w)
                 .enumerate()
                 .for_each(|(i, witness)| {
